@@ -10,6 +10,8 @@ CONSTANTS
   Emit = TRUE
   CharSigned = TRUE
   EUSuffixed = {}
+  GenClasses = {"scalar", "array", "bitfield", "nested", "anon", "alignas", "flex"}
+  GenPacked = TRUE
   CheckSim = FALSE
 INVARIANTS Inv_RefineStep Inv_RefineDone Inv_ImplSane Inv_Emit
 CHECK_DEADLOCK FALSE
